@@ -39,7 +39,8 @@ RULE = ('cases = (constant value, position): values = all strings of length <= 3
         'field ctx): right_join (WHERE / IN inside a SELECT with a RIGHT JOIN: no SqlalchemyRender compiles it), '
         'limit_offset (WHERE / IN with LIMIT + OFFSET and no ORDER BY: mssql declines), two_rows (INSERT of two rows: '
         'oracle / Snowflake decline) - there the default output is the fallback text, judged by the rules of the '
-        'requested target - and neg (numeric constant under a unary minus at every node position); shapes are run over '
+        'requested target -, neg (numeric constant under a unary minus at every node position) and the value-preserving '
+        'wrappers coalesce(NULL, v), substring(v FROM 1) (text values) and CASE WHEN 9 = 9 THEN v END at every node position; shapes are run over '
         'the fixed seeds + all hostile-alphabet strings of length <= 2 (quick) / 3 (thorough) and a quarter of the '
         'random cases; distinct by (value, position, ctx)')
 ASSUMPTIONS = [
@@ -84,10 +85,10 @@ FLOORS = {
                          'v:non-ascii': 18000, 'float:exponent': 1700, 'num:negative': 3000},
                         90000, 165000, 80000, 54000, 50000, 11000),
 }
-FLOORS['quick'].update({'ctx:right_join': 250, 'ctx:limit_offset': 250, 'ctx:two_rows': 250, 'ctx:neg': 250,
+FLOORS['quick'].update({'ctx:coalesce': 400, 'ctx:fn_from': 400, 'ctx:case': 400, 'ctx:right_join': 250, 'ctx:limit_offset': 250, 'ctx:two_rows': 250, 'ctx:neg': 250,
                         'fallback:sqlite': 400, 'fallback:postgresql': 400, 'fallback:mysql': 400, 'fallback:mssql': 800,
                         'fallback:oracle': 700})
-FLOORS['thorough'].update({'ctx:right_join': 3000, 'ctx:limit_offset': 3000, 'ctx:two_rows': 3000, 'ctx:neg': 3000,
+FLOORS['thorough'].update({'ctx:coalesce': 4000, 'ctx:fn_from': 4000, 'ctx:case': 4000, 'ctx:right_join': 3000, 'ctx:limit_offset': 3000, 'ctx:two_rows': 3000, 'ctx:neg': 3000,
                            'fallback:sqlite': 5000, 'fallback:postgresql': 5000, 'fallback:mysql': 5000,
                            'fallback:mssql': 10000, 'fallback:oracle': 9000})
 N = {'quick': 1200, 'thorough': 12000}
@@ -252,6 +253,31 @@ def make_statement(val, pos, ctx='plain'):
             return ast.Update(table=I('t1'), update_columns={'c2': neg()},
                               where=ast.BinaryOperation('=', args=[I('c1'), C(5)]))
         raise ValueError((pos, ctx))
+    if ctx in WRAPS:
+        # the constant one level down inside an expression that hands its value on unchanged (so that the engine clause
+        # still knows what the position denotes): function argument, function argument in front of FROM, CASE result
+        def wrap(alias=None):
+            kw = {'alias': I(alias)} if alias else {}
+            if ctx == 'coalesce':
+                return ast.Function('coalesce', args=[ast.NullConstant(), make_node(val)], **kw)
+            if ctx == 'fn_from':
+                return ast.Function('substring', args=[make_node(val)], from_arg=C(1), **kw)
+            return ast.Case(rules=[[ast.BinaryOperation('=', args=[C(9), C(9)]), make_node(val)]], **kw)
+        if pos == 'sel':
+            return ast.Select(targets=[wrap()])
+        if pos == 'sel_alias':
+            return ast.Select(targets=[wrap('x1')])
+        if pos == 'where':
+            return ast.Select(targets=[I('c1')], from_table=I('t1'), where=ast.BinaryOperation('=', args=[I('c1'), wrap()]))
+        if pos == 'in':
+            return ast.Select(targets=[I('c1')], from_table=I('t1'),
+                              where=ast.BinaryOperation('in', args=[I('c1'), ast.Tuple([C(5), wrap(), C('w')])]))
+        if pos == 'insert':
+            return ast.Insert(table=I('t1'), columns=[I('c1'), I('c2')], values=[[C(5), wrap()]])
+        if pos == 'update':
+            return ast.Update(table=I('t1'), update_columns={'c2': wrap()},
+                              where=ast.BinaryOperation('=', args=[I('c1'), C(5)]))
+        raise ValueError((pos, ctx))
     if ctx == 'right_join':
         # a statement shape no SqlalchemyRender compiles (NotImplementedError: Join type): every name falls back
         col = I('t1.c1')
@@ -291,10 +317,13 @@ def make_statement(val, pos, ctx='plain'):
     raise ValueError(pos)
 
 
+WRAPS = ('coalesce', 'fn_from', 'case')
+_WRAP_POS = ('sel', 'sel_alias', 'where', 'in', 'insert', 'update')
 CTX_POS = {'plain': POSITIONS,
            'right_join': ('where', 'in'), 'limit_offset': ('where', 'in'), 'two_rows': ('insert', 'insert_raw'),
-           'neg': ('sel', 'sel_alias', 'where', 'in', 'insert', 'update')}
-SHAPES = [(c, p) for c in ('right_join', 'limit_offset', 'two_rows', 'neg') for p in CTX_POS[c]]
+           'neg': ('sel', 'sel_alias', 'where', 'in', 'insert', 'update'),
+           'coalesce': _WRAP_POS, 'fn_from': _WRAP_POS, 'case': _WRAP_POS}
+SHAPES = [(c, p) for c in ('right_join', 'limit_offset', 'two_rows', 'neg') + WRAPS for p in CTX_POS[c]]
 
 
 def in_domain(val, pos, ctx='plain'):
@@ -302,6 +331,8 @@ def in_domain(val, pos, ctx='plain'):
         return f'context {ctx} has no position {pos}'
     if ctx == 'neg' and val['t'] not in ('int', 'float'):
         return 'unary minus is judged over numeric constants only'
+    if ctx == 'fn_from' and val['t'] != 'str':
+        return 'substring(x FROM 1) hands on text values only'
     if val['t'] == 'float' and not math.isfinite(float(val['v'])):
         return 'non-finite float: no SQL literal denotes it'
     if pos == 'insert_raw' and val['t'] in ('date', 'datetime'):
@@ -746,7 +777,8 @@ def judge_output(out, val, pos, col, cache, ctx='plain'):
         eprobs = engine_check(text, X if not probs else None, val, pos, ctx)
         for kind, feature, detail in eprobs:
             rec(kind, site, [feature] + (['model-agrees'] if probs else ['model-passes']), f'{detail}; output: {_short(text, 200)}', text)
-        if probs and not eprobs and val['t'] == 'str' and not all(p[0] == 'label' for p in probs):
+        if probs and not eprobs and val['t'] == 'str' and not all(p[0] == 'label' for p in probs) and \
+                not (pos == 'in' and val['v'] == 'w'):          # the IN list holds 'w' itself: the engine clause is blind there
             # the hand-written sqlite reader sees a problem the engine does not: the reader is wrong (harness error)
             raise AssertionError(f'sqlite model disagrees with the engine on {text!r}: {probs}')
     if out[0] == 'to_string' and ctx != 'neg':       # the parser folds "- 7" into Constant(-7): no tree to compare with
